@@ -1,0 +1,107 @@
+//go:build verif
+
+package lexer
+
+// Contracts for the deductive checker kept in /verif (see /verif/DESIGN.md).
+// This file contains comments only; it is compiled in only with the build tag "verif"
+// and adds nothing to the package. Contracts are keyed by function name, loop ordinal
+// (source order) and call ordinal.
+
+// ---------------------------------------------------------------------------------------------
+// peek.go
+// ---------------------------------------------------------------------------------------------
+
+//@ spec fn eofAt(p *PeekingLexer, k int) bool = p.tokens[k].Type == EOF
+//@ spec fn elidedAt(p *PeekingLexer, k int) bool = !eofAt(p, k) && p.elide[p.tokens[k].Type]
+//@ spec fn liveAt(p *PeekingLexer, k int) bool = !eofAt(p, k) && !p.elide[p.tokens[k].Type]
+//@ spec fn stopAt(p *PeekingLexer, k int) bool = eofAt(p, k) || !p.elide[p.tokens[k].Type]
+//@ spec rec cnt(p *PeekingLexer, k int) int = ite(k <= 0, 0, cnt(p, k-1) + ite(liveAt(p, k-1), 1, 0))
+//@ spec fn eofIdx(p *PeekingLexer) int = len(p.tokens) - 1
+//@ pred streamOK(p *PeekingLexer) = len(p.tokens) >= 1 && eofAt(p, eofIdx(p)) && forall(k, 0, eofIdx(p), !eofAt(p, k))
+//@ pred ckOK(p *PeekingLexer, c Checkpoint) = 0 <= c.rawCursor && c.rawCursor <= c.nextCursor && c.nextCursor <= eofIdx(p)
+//@      && forall(k, c.rawCursor, c.nextCursor, elidedAt(p, k)) && stopAt(p, c.nextCursor) && c.cursor == cnt(p, c.rawCursor)
+//@ pred plInv(p *PeekingLexer) = streamOK(p) && ckOK(p, p.Checkpoint)
+
+//@ lemma cntSkip(p *PeekingLexer, a int, b int) [C12]
+//@   requires 0 <= a && a <= b && b <= len(p.tokens)
+//@   requires forall(k, a, b, !liveAt(p, k))
+//@   ensures cnt(p, b) == cnt(p, a)
+//@   induction b from a
+
+//@ lemma cntMono(p *PeekingLexer, a int, b int) [C12]
+//@   requires 0 <= a && a <= b && b <= len(p.tokens)
+//@   ensures cnt(p, a) <= cnt(p, b) && cnt(p, b) - cnt(p, a) <= b - a
+//@   induction b from a
+
+//@ func (*PeekingLexer).Range [C12 C11 C06]
+//@   requires 0 <= rawStart && rawStart <= rawEnd && rawEnd <= len(p.tokens)
+//@   pure
+//@   ensures len(result) == rawEnd - rawStart
+//@   ensures forall(k, 0, rawEnd - rawStart, &result[k] == &p.tokens[rawStart + k])
+
+//@ func (Checkpoint).Cursor [C12]
+//@   pure
+//@   ensures result == c.cursor
+
+//@ func (Checkpoint).RawCursor [C12]
+//@   pure
+//@   ensures result == c.rawCursor
+
+//@ func (*PeekingLexer).Peek [C12 C10 C11 C06]
+//@   requires plInv(p)
+//@   pure
+//@   ensures result == &p.tokens[p.nextCursor]
+//@   ensures p.rawCursor <= p.nextCursor && forall(k, p.rawCursor, p.nextCursor, elidedAt(p, k)) && stopAt(p, p.nextCursor)
+
+//@ func (*PeekingLexer).RawPeek [C12 C11 C06]
+//@   requires plInv(p)
+//@   pure
+//@   ensures result == &p.tokens[p.rawCursor]
+
+//@ func (*PeekingLexer).Next [C12 C10 C06]
+//@   requires plInv(p)
+//@   modifies p.Checkpoint
+//@   ensures plInv(p)
+//@   ensures result == &p.tokens[old(p.nextCursor)]
+//@   ensures eofAt(p, old(p.nextCursor)) ==> p.Checkpoint == old(p.Checkpoint)
+//@   ensures !eofAt(p, old(p.nextCursor)) ==> p.rawCursor == old(p.nextCursor)+1 && p.cursor == old(p.cursor)+1
+//@   use cntSkip(p, old(p.rawCursor), old(p.nextCursor)) at entry
+
+//@ func (*PeekingLexer).advanceToNonElided [C12 C06]
+//@   requires streamOK(p) && 0 <= p.rawCursor && p.rawCursor <= p.nextCursor && p.nextCursor <= eofIdx(p)
+//@   requires forall(k, p.rawCursor, p.nextCursor, elidedAt(p, k))
+//@   modifies p.nextCursor
+//@   ensures p.nextCursor >= old(p.nextCursor) && p.nextCursor <= eofIdx(p) && stopAt(p, p.nextCursor)
+//@   ensures forall(k, p.rawCursor, p.nextCursor, elidedAt(p, k))
+//@   loop 1 invariant old(p.nextCursor) <= p.nextCursor && p.nextCursor <= eofIdx(p)
+//@   loop 1 invariant forall(k, p.rawCursor, p.nextCursor, elidedAt(p, k))
+//@   loop 1 decreases eofIdx(p) - p.nextCursor
+
+//@ func (*PeekingLexer).PeekAny [C12 C10 C06]
+//@   requires plInv(p)
+//@   ensures p.rawCursor <= rawCursor && rawCursor <= p.nextCursor && t == p.tokens[rawCursor]
+//@   ensures eofAt(p, rawCursor) || match(p.tokens[rawCursor]) || !p.elide[p.tokens[rawCursor].Type]
+//@   ensures forall(k, p.rawCursor, rawCursor, !match(p.tokens[k]))
+//@   loop 1 invariant p.rawCursor <= i && i <= p.nextCursor
+//@   loop 1 invariant forall(k, p.rawCursor, i, !match(p.tokens[k]))
+//@   loop 1 decreases p.nextCursor - i
+
+//@ func (*PeekingLexer).FastForward [C12 C10 C06]
+//@   requires plInv(p)
+//@   modifies p.Checkpoint
+//@   ensures plInv(p)
+//@   ensures p.rawCursor == ite(rawCursor < old(p.rawCursor), old(p.rawCursor), min(rawCursor+1, eofIdx(p)))
+//@   ensures p.cursor == old(p.cursor) + cnt(p, p.rawCursor) - cnt(p, old(p.rawCursor))
+//@   loop 1 invariant old(p.rawCursor) <= p.rawCursor && p.rawCursor <= eofIdx(p)
+//@   loop 1 invariant p.rawCursor <= max(old(p.rawCursor), rawCursor+1)
+//@   loop 1 invariant p.cursor == cnt(p, p.rawCursor)
+//@   loop 1 decreases eofIdx(p) - p.rawCursor
+
+//@ func (*PeekingLexer).MakeCheckpoint [C12]
+//@   pure
+//@   ensures result == p.Checkpoint
+
+//@ func (*PeekingLexer).LoadCheckpoint [C12]
+//@   requires streamOK(p) && ckOK(p, checkpoint)
+//@   modifies p.Checkpoint
+//@   ensures p.Checkpoint == checkpoint && plInv(p)
